@@ -33,6 +33,12 @@ type T struct{ N int }
 func (T) Get() int { return 0 }
 
 func (*T) Set(n int) {}
+
+func First(s []int) int { return 0 }
+
+func Shout(s string) string { return s }
+
+func Drain(c chan int) int { return 0 }
 `
 
 func apiProgram() output {
@@ -72,6 +78,14 @@ func apiProgram() output {
 		pkg.NewFuncDecl(token.NoPos, "ext", types.NewSignatureType(nil, nil, nil, nil, nil, false))
 	})
 	step("force-import", func() { pkg.ForceImport("unit") })
+	step("builtin-ti", func() {
+		// packages may extend the builtin-type method tables of their own Package object
+		pkg.BuiltinTI(types.NewSlice(T[types.Int])).AddMethods(&gogen.BuiltinMethod{Name: "First", Fn: u.Ref("First")})
+		if ti := pkg.BuiltinTI(T[types.String]); ti != nil { // only present when strings/strconv can be imported
+			ti.AddMethods(&gogen.BuiltinMethod{Name: "Shout", Fn: u.Ref("Shout")})
+		}
+		pkg.BuiltinTI(types.NewChan(types.SendRecv, T[types.Int])).AddMethods(&gogen.BuiltinMethod{Name: "Drain", Fn: u.Ref("Drain")})
+	})
 	step("sizeof", func() { verdicts = append(verdicts, fmt.Sprint(pkg.Sizeof(T[types.Int64]))) })
 	var cb *gogen.CodeBuilder
 	step("func", func() { cb = pkg.NewFunc(nil, "api", nil, nil, false).BodyStart(pkg) })
@@ -87,6 +101,11 @@ func apiProgram() output {
 		cb.DefineVarStart(token.NoPos, "m").Val("a").Val(1).Val("b").Val(2).MapLit(nil, 4).EndInit(1)
 		cb.DefineVarStart(token.NoPos, "arr").Val(1).Val(2).ArrayLit(types.NewArray(T[types.Int], 2), 2).EndInit(1)
 		cb.DefineVarStart(token.NoPos, "sl").Val(1).Val(2).Val(3).SliceLit(intSl, 3).EndInit(1)
+	})
+	step("builtin-ti-use", func() {
+		cb.VarRef(nil).Val(cb.Scope().Lookup("sl")).MemberVal("First", 0).Call(0).Assign(1).EndStmt()
+		cb.NewVar(types.NewChan(types.SendRecv, T[types.Int]), "chn")
+		cb.VarRef(nil).Val(cb.Scope().Lookup("chn")).MemberVal("Drain", 0).Call(0).Assign(1).EndStmt()
 	})
 	step("slice-index", func() {
 		sl := cb.Scope().Lookup("sl")
